@@ -114,6 +114,17 @@ def run(ctx):
     # storages on a coarser frequency with their own window: first coarse step only partly inside the horizon, or running since before it
     specs += gen.gen_many(ctx.seed, n // 3, dict(CFG, p_coarse=1.0, coarse_windows=True, coarse_any=False, p_coarse_early=0.3, freqs=['h', '30min'], T=(4, 9), p_blocks=0.0, p_max_store=0.0,
                                                  kinds={'Storage': 1}, n_assets=(1, 2)), 'c05cw_')
+    # time blocks with a start level > 0 (= end level) and a size that binds inside the blocks
+    import random as _rnd
+    blk = gen.gen_many(ctx.seed, n // 3, dict(CFG, p_blocks=1.0, p_inflow=0.0, p_coarse=0.0, p_max_store=0.0, freqs=['h', '30min'], T=(6, 12), kinds={'Storage': 1}, n_assets=(1, 2)), 'c05blk_')
+    for sp in blk:
+        rng = _rnd.Random(str(sp['seed']) + '/blk')
+        for a in sp['assets']:
+            if a['kind'] == 'Storage' and a.get('block_size'):
+                a.pop('inflow', None)
+                a['start_level'] = a['end_level'] = gen.k8(rng, 1, 3)
+                a['size'] = a['start_level'] + gen.k8(rng, 0.5, 2)
+    specs += blk
     specs = ctx.specs(specs)
     res = C.run_impl('portfolio', specs)
     parts = C.run_impl('assets', specs)
